@@ -9,3 +9,9 @@ claim("C12", "Lean 4 theorems (tiled-write lemma, per-encoder equation) + differ
       "(Props/C12.lean: EncSpec.property, request, response, exceptionResponse, responsePdu, rtuRequest, rtuResponse, tcpRequest, tcpResponse). "
       "Model tied to the crate by running every encoder on generated values x buffer lengths 0..size+3 x two fills and comparing whole buffers.",
       "Encodable = implemented kind, byte count <= 255, container holds the promised bytes; RTU-only kinds (todo!() in the crate) are outside the theorem.")
+
+claim("C18", "Lean 4 theorems by finite case analysis (decide +kernel over all 256 bytes) + exhaustive differential correspondence",
+      "Proved for the model: FunctionCode.new/value round trip for all 256 bytes, named standard codes, exactly the nine exception codes accepted and mapping back, "
+      "exactly 0xFF00/0x0000 accepted as coil values, and the function code of any request/response the encoder accepts equals the first encoded byte "
+      "(Props/C18.lean). The model's tables are tied to the crate exhaustively: every byte, every 16-bit coil value, every kind.",
+      "For these finite functions the model/code tie is complete (exhaustive: true in the evidence).")
